@@ -244,6 +244,7 @@ func (c16Prop) Execute(p *Plan, run *Run) any {
 
 	for _, f := range faults {
 		f := f
+		tick()
 		if pl.PathErr {
 			f.Flavour = "patherror"
 		}
